@@ -304,7 +304,7 @@ def judge (ws : List String) (impl : String) : String :=
       | [rets, writes] =>
         let rets := ((rets.drop 5).toString.splitOn ",").filter (· != "")
         let total := (List.range nprod).foldl (fun n p => n + callsOf script p) 0
-        if rets.length != total || rets.any (· != "nil") then "NOT-ALLOWED a Handle call did not return nil: " ++ impl.take 200 |>.toString
+        if rets.length != total || rets.any (· != "nil") then "NOT-ALLOWED a Handle call did not return nil: " ++ (impl.take 200).toString
         else
           let hexes := if writes == "-" then [] else writes.splitOn "|"
           -- each Write must be exactly the formatted line of one record (no tear, no merge)
